@@ -323,6 +323,9 @@ func build(feeds []Feed, from, to int) (out abs.Seq[Entry], j *journal.Journal, 
 	return
 }
 
+// HookMissingRuns counts the histories observed without the journal.feed hook.
+var HookMissingRuns int
+
 // Run executes one case against the real code and appends its trace.
 func Run(id string, c Case, w *abs.Writer) []Crash {
 	var crashes []Crash
@@ -359,6 +362,12 @@ func Run(id string, c Case, w *abs.Writer) []Crash {
 	verifhook.Sink = nil
 	if crash != "" {
 		crashes = append(crashes, Crash{id, "BuildJournal panicked: " + crash})
+		return crashes
+	}
+	if len(snaps) == 0 && len(c.Feeds) > 0 {
+		// the hook line is missing from the code under test: the state after each feed (which includes trips that
+		// never reach the output) cannot be observed; nothing is judged
+		HookMissingRuns++
 		return crashes
 	}
 	if len(snaps) != len(c.Feeds) {
